@@ -583,13 +583,15 @@ class ShmServer(Harness):
             srv.sock = Sock()
             reqs = []
             for i in range(params["len"]):
-                kind = ch.pick(5, f"req{i}")  # allocate k0, allocate k1, close k0 (writer), get k0, free-space
+                kind = ch.pick(6, f"req{i}")  # allocate k0, allocate k1, close k0 (writer), get k0, free-space, status of k0
                 if kind in (0, 1):
                     reqs.append(api.AllocateRequest(key=f"k{kind}", l=ch.choose(self.SIZES, f"size{i}"), deser_fun="d"))
                 elif kind == 2:
                     reqs.append(api.CloseCallback(key="k0", rdid=""))
                 elif kind == 3:
                     reqs.append(api.GetRequest(key="k0"))
+                elif kind == 5:
+                    reqs.append(api.DatasetStatusRequest(key="k0"))
                 else:
                     reqs.append(api.FreeSpaceRequest())
             reqs.append(api.FreeSpaceRequest())
@@ -639,6 +641,10 @@ class ShmServer(Harness):
                             raise Violation("get-before-write-finished-not-wait", repr(a))
                     elif not getattr(a, "error", ""):
                         raise Violation("get-unknown-key-no-error", repr(a))
+                elif isinstance(r, api.DatasetStatusRequest):
+                    ready = status.get(r.key) == "in_memory"
+                    if not isinstance(a, api.DatasetStatusResponse) or (a.status == api.DatasetStatus.ready) != ready:
+                        raise Violation("status-answer-wrong", f"{a!r} for a dataset that is {status.get(r.key, 'unknown')}")
                 elif isinstance(r, api.FreeSpaceRequest):
                     if not isinstance(a, api.FreeSpaceResponse) or a.free_space != free:
                         raise Violation("reported-free-space-wrong", f"{a!r}, capacity {cap} minus resident {cap - free} is {free}")
